@@ -27,18 +27,21 @@ func init() {
 		ID:    "C07",
 		Level: "exploration",
 		Rule: "every nesting (outermost first) of context forms up to the tier's depth, the innermost body slot filled with one exit " +
-			"(fall through / return-from each visible block / return / return-from the enclosing function / go forward and backward to each " +
+			"(fall through / return-from each visible block / return / return-from the enclosing named function / go forward and backward to each " +
 			"visible tagbody / error of four classes), the slot placed at every body position (first, middle, last; loops also on the 2nd " +
-			"iteration); trace markers before and after every slot, in every cleanup, handler, loop result form and unselected branch; " +
-			"program text is rendered by the harness writer, run through ReadString+Eval in a fresh scope, and value, ordered trace, " +
-			"condition class, mutex state (TryLock from Go) and stream state (os.File closed, from Go) are compared with ref/eval; a case is " +
-			"non-trivial when a non-normal exit crosses at least one intervening form on the way to its target",
+			"iteration); trace markers before and after every slot, in every cleanup, handler, loop result form and unselected branch, and as the " +
+			"value form of every return; program text is rendered by the harness writer, run through ReadString+Eval in a fresh scope, and value, " +
+			"ordered trace, condition class, mutex state (TryLock from Go) and stream state (os.File closed, from Go) are compared with ref/eval; " +
+			"a failing case is re-run on the shorter nesting [target, sub-chain below the blamed form] so that its signature names the smallest " +
+			"nesting that shows the failure; a case is non-trivial when a non-normal exit crosses at least one intervening form on the way to its target",
 		Assumptions: []string{
 			"ref/eval is the oracle (lexical targets by construction; exits as Go panics)",
-			"exits are placed in body positions only (never in argument, test, binding-init or cleanup positions)",
+			"exits are placed in body positions only (never in argument, test, binding-init or cleanup-form positions)",
 			"the primary value of ignore-errors after it caught an error is not pinned down (wild)",
 			"the 'original condition class' of an error form is the class slip itself reports when that form is evaluated alone at top level",
-			"tagbody tags are integers in the main alphabet (symbol tags are a separate context kind, see tagbody-sym) so that a defect in tag handling does not mask the rest",
+			"tagbody tags are integers in the main alphabet; symbol tags are the separate kind tagbody-sym, used only in the complete depths, and while the build under test evaluates a fallen-through symbol tag (probed once per process) programs holding one get coarse signatures (ctx=tagbody-sym ...)",
+			"a defun context is defined at top level (a lexical boundary: outer blocks and tags are not visible in it); defun-in is defined inside its parent's body and lambda is called in place, so both see the enclosing blocks and tags",
+			"(funcall f) with no further argument is rejected by slip (a C04 finding), so lambdas take one dummy argument",
 		},
 		Enumerate: enumerate,
 		Exec:      exec,
@@ -892,7 +895,7 @@ func execProgram(p *program, reduce, resources bool) (res engine.Result) {
 			if fs == nil {
 				// the body was never entered (that is compared through the trace); if the trace
 				// agreed with the reference and the reference did enter it, the capture is broken
-				if ex.streamMade[string(lv("fs", i))] && len(res.Failures) == 0 && !hasSymTags(p) {
+				if ex.streamMade[string(lv("fs", i))] && len(res.Failures) == 0 && !coarseSig(p) {
 					res.Fail("harness:stream-not-captured", src)
 				}
 				continue
@@ -917,7 +920,7 @@ func execProgram(p *program, reduce, resources bool) (res engine.Result) {
 }
 
 func resourceSig(p *program, exitSig string, tgt int, kind string) string {
-	if hasSymTags(p) {
+	if coarseSig(p) {
 		return "ctx=tagbody-sym exit=" + exitSig + " kind=" + kind
 	}
 	return fmt.Sprintf("exit=%s target=%s kind=%s", exitSig, targetName(p, tgt), kind)
@@ -1040,13 +1043,32 @@ func hasSymTags(p *program) bool {
 	return false
 }
 
+var (
+	symTagOnce   sync.Once
+	symTagBroken bool
+)
+
+// symTagDefect probes the build under test once per process: does falling
+// through a symbol tag of a tagbody evaluate the tag as a variable? Only then
+// are programs holding a tagbody-sym judged with the coarse signatures.
+func symTagDefect() bool {
+	symTagOnce.Do(func() {
+		_, err := lisp.Eval("(tagbody c07-probe-tag)")
+		symTagBroken = err != nil
+	})
+	return symTagBroken
+}
+
+// coarseSig: see the S9 note in judge.
+func coarseSig(p *program) bool { return hasSymTags(p) && symTagDefect() }
+
 // judge compares observation and expectation. It returns the index of the
 // context blamed by a "continues" verdict (-1 otherwise).
 func judge(res *engine.Result, b *built, ex *expectation, o *observation, tgt int, exitSig, origClass, src string) (blamed int) {
 	blamed = -1
 	p := b.p
 	prefix := fmt.Sprintf("exit=%s target=%s ", exitSig, targetName(p, tgt))
-	coarse := hasSymTags(p)
+	coarse := coarseSig(p)
 	fail := func(kind, rest, detail string) {
 		if coarse {
 			// S9: symbol tags are a listed finding on the pinned tree (a tag reached by falling
